@@ -222,8 +222,11 @@ def explicit(obj, pr: dict) -> str:
         return "na"
 
 
-def snapshot(obj, kind: dict) -> dict:
-    return {"r": [reading(obj, pr["p"]) for pr in kind["props"]], "x": [explicit(obj, pr) for pr in kind["props"]]}
+def snapshot(obj, kind: dict, active=frozenset()) -> dict:
+    """Readings of every catalogued property; `lazy` groups (readers with a documented side effect) are read only once activated."""
+    live = [not pr.get("lazy") or pr["lazy"] in active for pr in kind["props"]]
+    return {"r": [reading(obj, pr["p"]) if ok else "lazy" for pr, ok in zip(kind["props"], live)],
+            "x": [explicit(obj, pr) if ok else "na" for pr, ok in zip(kind["props"], live)]}
 
 
 # ------------------------------------------------------------------------------------------------ runtime catalogue
@@ -499,7 +502,8 @@ def run_trace(job) -> dict:
     prs = open_deck(deck)
     obj = resolve(prs, path)
     kd = {"props": props}
-    s = snapshot(obj, kd)
+    active: set = set()
+    s = snapshot(obj, kd, active)
     tr = {"id": tid, "k": RT["order"].index(kname) + 1, "init": s, "steps": []}
     for a in acts:
         m = {"within": True, "av": "", "rv": "", "exc": ""}
@@ -516,6 +520,8 @@ def run_trace(job) -> dict:
                 out, m["exc"] = _outcome(e), "%s: %s" % (type(e).__name__, str(e)[:120])
         else:
             pr = props[a["p"] - 1]
+            if pr.get("lazy"):
+                active.add(pr["lazy"])
             try:
                 val = None if a["op"] == "SetNone" else concretise(pr, a["v"])
             except Unjudgeable as e:
@@ -529,7 +535,7 @@ def run_trace(job) -> dict:
                 got, err = read(obj, pr["p"])
                 m["rv"] = ("!" + err) if err else canon(got)
                 m["within"] = (not err) and within(pr, val, got)
-        t = snapshot(obj, kd)
+        t = snapshot(obj, kd, active)
         tr["steps"].append({"a": {"op": a["op"], "p": a["p"], "v": a["v"]}, "exp": a.get("exp", "free"), "out": out, "m": m,
                             "dr": _delta(s["r"], t["r"]), "dx": _delta(s["x"], t["x"])})
         s = t
